@@ -2,6 +2,7 @@
 package c11
 
 import (
+	"errors"
 	"fmt"
 
 	"go.pennock.tech/tabular"
@@ -172,6 +173,7 @@ type StepB struct {
 	When   int     `json:"when,omitempty"`   // 0 add, 1 pre-cell, 2 render, 3 post-cell
 	Target int     `json:"target,omitempty"` // 0 itself, 1 cell, 2 row
 	Via    string  `json:"via,omitempty"`    // render: invoke | csv | texttable
+	Shared int     `json:"shared,omitempty"` // rowerr, reg: > 0 = the error value is the sentinel of that number (the same value every time) instead of a fresh one
 	N      int     `json:"n,omitempty"`      // reg: the registration is made N times (several failing callbacks in one slot: one round, several errors)
 }
 
@@ -202,8 +204,37 @@ func (e *hErr) Unwrap() []error {
 }
 
 type raised struct {
-	e    *hErr
+	e    error
 	home *gen.MRow // nil = the table
+}
+
+// Sentinel error values an application uses again and again: every occurrence is an error raised, so every occurrence
+// is reported.  One is an ordinary value, one a typed nil pointer (an error all the same: err != nil), one of a
+// type that cannot be compared with == (a slice used by value).
+type nilSafeErr struct{}
+
+func (*nilSafeErr) Error() string { return "sentinel (typed nil pointer)" }
+
+type errSlice []error
+
+func (l errSlice) Error() string { return "sentinel (slice of errors)" }
+
+var sentinels = []error{nil, errors.New("sentinel (plain)"), (*nilSafeErr)(nil), errSlice{errors.New("a"), errors.New("b")}}
+
+// ekey identifies a harness error value ("" for anything else, i.e. the library's own errors).
+func ekey(e error) string {
+	switch x := e.(type) {
+	case *hErr:
+		return fmt.Sprintf("h%p", x)
+	case *nilSafeErr:
+		return "S2"
+	case errSlice:
+		return "S3"
+	}
+	if e == sentinels[1] {
+		return "S1"
+	}
+	return ""
 }
 
 type world struct {
@@ -213,9 +244,10 @@ type world struct {
 }
 
 type failCB struct {
-	reg int
-	n   int
-	w   *world
+	reg    int
+	n      int
+	w      *world
+	shared int // > 0: it reports sentinels[shared] every time instead of a fresh error
 }
 
 func (f *failCB) UpdateProperties(po tabular.PropertyOwner) error {
@@ -224,7 +256,13 @@ func (f *failCB) UpdateProperties(po tabular.PropertyOwner) error {
 		return nil // even registrations fail on every other invocation only
 	}
 	f.w.seq++
-	e := &hErr{src: fmt.Sprintf("reg%d", f.reg), seq: f.w.seq, multi: f.w.seq%5 == 0}
+	var e error = &hErr{src: fmt.Sprintf("reg%d", f.reg), seq: f.w.seq, multi: f.w.seq%5 == 0}
+	if f.shared > 0 {
+		e = sentinels[f.shared%len(sentinels)]
+		if e == nil {
+			e = sentinels[1]
+		}
+	}
 	f.w.raised = append(f.w.raised, raised{e, f.w.home})
 	return e
 }
@@ -262,22 +300,24 @@ func checkB(c CaseB) *ev.Violation {
 				return ev.V("step %d (%s): a pending row reports %v, raised on it so far: %v", step, k, got, want)
 			}
 			for i := range want {
-				if got[i] != error(want[i]) {
+				if ekey(got[i]) != ekey(want[i]) {
 					return ev.V("step %d (%s): a pending row reports %v, raised on it so far (in order): %v", step, k, got, want)
 				}
 			}
 		}
 		// the table reports, exactly once, everything raised on it or on rows that have joined it
-		want := map[*hErr]bool{}
+		want := map[string]int{}
+		nwant := 0
 		for _, x := range w.raised {
 			if x.home == nil || x.home.Attached {
-				want[x.e] = true
+				want[ekey(x.e)]++
+				nwant++
 			}
 		}
 		got := t.Errors()
-		if len(want) == 0 && misuse == 0 {
+		if nwant == 0 && misuse == 0 {
 			for _, e := range got {
-				if _, mine := e.(*hErr); mine || e == nil {
+				if e == nil || ekey(e) != "" {
 					return ev.V("step %d (%s): table reports %v but no error has been raised", step, k, got)
 				}
 			}
@@ -286,33 +326,35 @@ func checkB(c CaseB) *ev.Violation {
 			}
 			return nil
 		}
-		seen := map[*hErr]bool{}
+		seen := map[string]int{}
 		last := map[string]int{}
 		gotMisuse := 0
 		for i, e := range got {
 			if e == nil {
 				return ev.V("step %d (%s): table error list has a nil entry at %d: %v", step, k, i, got)
 			}
-			he, ok := e.(*hErr)
-			if !ok {
+			key := ekey(e)
+			if key == "" {
 				gotMisuse++
 				continue
 			}
-			if seen[he] {
-				return ev.V("step %d (%s): error %v is reported twice by the table: %v", step, k, he, got)
+			seen[key]++
+			if seen[key] > want[key] {
+				if want[key] == 0 {
+					return ev.V("step %d (%s): table reports %v, which was not raised on it or belongs to a row that has not joined the table", step, k, e)
+				}
+				return ev.V("step %d (%s): error %v is reported %d times by the table but was raised %d times: %v", step, k, e, seen[key], want[key], got)
 			}
-			seen[he] = true
-			if !want[he] {
-				return ev.V("step %d (%s): table reports %v, which belongs to a row that has not joined the table", step, k, he)
+			if he, ok := e.(*hErr); ok {
+				if he.seq < last[he.src] {
+					return ev.V("step %d (%s): errors of source %s are out of order in the table's list: %v", step, k, he.src, got)
+				}
+				last[he.src] = he.seq
 			}
-			if he.seq < last[he.src] {
-				return ev.V("step %d (%s): errors of source %s are out of order in the table's list: %v", step, k, he.src, got)
-			}
-			last[he.src] = he.seq
 		}
-		for he := range want {
-			if !seen[he] {
-				return ev.V("step %d (%s): error %v was raised but the table does not report it (table reports %v)", step, k, he, got)
+		for key, n := range want {
+			if seen[key] < n {
+				return ev.V("step %d (%s): an error (%s) was raised %d times but the table reports it %d times (table reports %v)", step, k, key, n, seen[key], got)
 			}
 		}
 		if gotMisuse < misuse {
@@ -355,7 +397,10 @@ func checkB(c CaseB) *ev.Violation {
 				break
 			}
 			w.seq++
-			e := &hErr{src: fmt.Sprintf("row%p", r), seq: w.seq, multi: w.seq%3 == 0}
+			var e error = &hErr{src: fmt.Sprintf("row%p", r), seq: w.seq, multi: w.seq%3 == 0}
+			if st.Shared > 0 {
+				e = sentinels[1+(st.Shared-1)%3]
+			}
 			home := r
 			if r.Attached {
 				home = nil
@@ -388,7 +433,14 @@ func checkB(c CaseB) *ev.Violation {
 			}
 			for k := 0; k < 1 || k < st.N; k++ {
 				nreg++
-				t.RegisterPropertyCallback(owner, whens[st.When%4], targets[st.Target%3], &failCB{reg: nreg, w: w})
+				t.RegisterPropertyCallback(owner, whens[st.When%4], targets[st.Target%3], &failCB{reg: nreg, w: w, shared: st.Shared})
+			}
+		case "update":
+			// refreshing a cell's text from its item is no occasion for any callback: nothing is raised
+			if r := rowOf(st.Ref); r != nil && len(r.Cells) > 0 {
+				if cells := r.Real.Cells(); len(cells) > 0 {
+					(&cells[st.Col%len(cells)]).Update()
+				}
 			}
 		case "render":
 			switch st.Via {
